@@ -44,20 +44,21 @@ def store():
             json.dump(meta, open(dst + "/meta.json", "w"), indent=1)
     print("stored", len(os.listdir(SEED)))
 
-def store2():
-    """round 2: /tmp/wt2/out/Mnn/k (results r2-Mnn-k.txt) -> seeded/Cnn-(k+3)"""
+def store2(rnd=2):
+    """round 2: /tmp/wt2/out/Mnn/k (results r2-Mnn-k.txt) -> seeded/Cnn-(k+3); round 3: /tmp/wt5/out, r3-, k+6"""
     head = sh("git -C /repo rev-parse --short HEAD").stdout.strip()
+    base = {2: "/tmp/wt2/out", 3: "/tmp/wt5/out"}[rnd]
     for p in PROPS:
         for k in (1, 2, 3):
-            mid = "%s-%d" % (p, k + 3)
+            mid = "%s-%d" % (p, k + 3 * (rnd - 1))
             m = "M" + p[1:]
             src = "/tmp/cm/rebased/" + mid
             rebased = os.path.isdir(src)
-            res = "/tmp/cm/results/r2-%s-%d.txt" % (m, k)
+            res = "/tmp/cm/results/r%d-%s-%d.txt" % (rnd, m, k)
             if rebased:
-                res = "/tmp/cm/results/r2b-%s-%d.txt" % (m, k)
+                res = "/tmp/cm/results/r%db-%s-%d.txt" % (rnd, m, k)
             else:
-                src = "/tmp/wt2/out/%s/%d" % (m, k)
+                src = "%s/%s/%d" % (base, m, k)
             if not os.path.isdir(src) or not os.path.exists(res):
                 continue
             line = open(res).read().strip()
@@ -73,8 +74,8 @@ def store2():
                 shutil.copy(src + "/README.md", dst + "/AGENT_README.md")
                 readme = open(src + "/README.md").read()
             meta = {
-                "id": mid, "property": p, "round": 2,
-                "origin": "second-round sub-agent given only the property record, the summaries of the first-round changes (to avoid repeating them) and a scratch worktree of /repo" + ("; patch rebased onto a later fix commit by hand (same change)" if rebased else ""),
+                "id": mid, "property": p, "round": rnd,
+                "origin": {2: "second-round sub-agent given only the property record, the summaries of the first-round changes (to avoid repeating them) and a scratch worktree of /repo", 3: "third-round sub-agent given only the property record and a scratch worktree of /repo, asked for a behaviour-preserving-looking refactoring with one subtle semantic slip hidden in it"}[rnd] + ("; patch rebased onto a later fix commit by hand (same change)" if rebased else ""),
                 "summary": first_para(readme),
                 "confirmed": {"repo_head": head, "result": line,
                               "ran": "tools/confirm_mutant.sh: fresh worktree of /repo HEAD; demo/run.sh on the clean tree (exit 0); git apply patch.diff; go build ./...; (cd tools && go vet ./cmd/); go test -vet=off -count=1 ./... (pass); demo/run.sh on the changed tree (exit != 0)"},
@@ -188,6 +189,8 @@ if __name__ == "__main__":
     cmd = sys.argv[1]
     if cmd == "store2":
         store2()
+    elif cmd == "store3":
+        store2(3)
     elif cmd == "store": store()
     elif cmd == "matrix": matrix(sys.argv[2:])
     elif cmd == "index": index()
